@@ -95,6 +95,13 @@ def handle (st : DState) (j : Json) : D (DState × Json) := do
       let specFields : List (String × Json) := if wantSpec then
           [("mergeSpecViolated", Json.bool (Gql.Spec.mergeViolatedB st.schema d)),
            ("argNamesUnique", Json.bool ((uniqueArgumentNames.runOn st.schema d tr).isEmpty)),
+           -- the same test with both fuels doubled: a different answer would mean the fuel of the executable spec is too small
+           ("mergeSpecViolated2", Json.bool ((Gql.walkOf st.schema d).any fun e =>
+              match e.1 with
+              | .enter (.selectionSet sel) =>
+                !Gql.Spec.fieldsInSetCanMerge st.schema d (2 * Gql.Spec.spreadFuelOf d) (2 * Gql.Spec.nestFuelOf d)
+                  (Gql.Spec.specFields st.schema d (2 * Gql.Spec.spreadFuelOf d) e.2.parent sel)
+              | _ => false)),
            ("fragmentFree", Json.bool (d.all fun x => match x with
               | .op o => (recursiveSpreads o.sel).isEmpty | .frag f => (recursiveSpreads f.sel).isEmpty))]
         else []
